@@ -78,6 +78,11 @@ Dust2(X1, D, amp, da) ==
 \* iteration runs on (measured over 2e5 calls, ratios up to 1e22, deposits up to 2^100: at most a tenth of
 \* 16 + sqrt(max reserve / min reserve) units of D).  The dust clause gives the code's D0 that much room (e0, on the
 \* pool before the deposit) and its D1 that much (e1, on the pool after it) and must hold.
+\* deposit slippage of the stableswap pools (C15), as documented in assert_slippage_tolerance: the deposit's tokens per
+\* minted LP must not be below the pool's tokens per LP by more than the tolerance t (decimal atomics); every
+\* Decimal256 operation floors, which is worth at most two atomics
+StSlipBound(poolTotal, S, depTotal, minted, t) ==
+  ((poolTotal ** (DEC -- t)) ** minted) \preceq (((depTotal ** S) ** DEC) ++ ((Two ** S) ** minted))
 Lopsided(hi, lo) == Sqrt(hi // NMax(One, lo))
 MintChecks(prefix, suffix, m, S, D0, D1, e0, e1) ==
   LET lit == (m ** D0) \preceq (S ** ((D1 ++ One) -- D0))
